@@ -202,9 +202,9 @@ def r2_2(ctx):
     fast_cases = [set(), set()]
     groups_f = [g for g in reader_cases(ctx, fast)]
     sws = []
-    for sw3 in cu.find_switches(fast):
-        c = cu.switch_cond(fast, sw3)
-        if c is not None and canon(fast, c) == '*ip':
+    from .C03 import opcode_switches
+    for sw3 in opcode_switches(ctx, fast):
+        if True:
             s = set()
             for labels, stmts in cu.switch_groups(fast, sw3):
                 s |= set(l.get('mn') for l in labels if l['k'] == 'case' and l.get('mn') and
